@@ -200,6 +200,24 @@ func init() {
 		}
 		return Value{}
 	})
+	rt("TraceSharedDeep", func(w *W, fr *frame, a []Value) Value {
+		it := a[0].iface()
+		if it == nil {
+			return Value{}
+		}
+		if p := it.v.ptr(); p != nil {
+			w.traceDeep = true
+			w.traceRegister(p, a[1].str(), 0)
+			w.traceEscapeCell(p, a[1].str(), 0)
+		}
+		return Value{}
+	})
+	rt("TraceMark", func(w *W, fr *frame, a []Value) Value {
+		if w.traced != nil {
+			w.traceEvents = append(w.traceEvents, "M "+a[0].str())
+		}
+		return Value{}
+	})
 	rt("TraceTake", func(w *W, fr *frame, a []Value) Value {
 		out := make([]Value, len(w.traceEvents))
 		for i, e := range w.traceEvents {
@@ -207,6 +225,8 @@ func init() {
 		}
 		w.traceEvents = nil
 		w.traced = nil
+		w.traceDeep = false
+		w.traceNames = nil
 		return mkSlice(out)
 	})
 	rt("PanicValueString", func(w *W, fr *frame, a []Value) Value {
